@@ -375,6 +375,28 @@ func runC10(r *core.Run) {
 		}
 		return out
 	}
+	// the refusal space of rank mismatches: operands of equal size whose shapes differ in rank or arrangement (a vector
+	// against a column or a row, a matrix against its transpose shape or its flattening) - NumPy refuses all of them
+	misfits := [][][]int{{{3}, {3, 1}}, {{3}, {1, 3}}, {{3, 1}, {3}}, {{1, 3}, {3}}, {{3, 1}, {1, 3}}, {{2, 3}, {3, 2}}, {{2, 3}, {6}}, {{6}, {2, 3}}, {{2, 1, 3}, {2, 3}}, {{2, 3}, {2, 1, 3}}, {{2}, {2, 1}, {2}}, {{1, 1}, {1}}}
+	for _, d := range []ref.DT{ref.Float64, ref.Uint8} {
+		for _, ms := range misfits {
+			if !r.Take() {
+				continue
+			}
+			lc := make([]string, len(ms))
+			for i := range lc {
+				lc[i] = "C"
+			}
+			for axis := 0; axis <= len(ms[0]); axis++ {
+				for _, api := range []string{"method", "func"} {
+					c10Join(r, "Stack", d, ms, lc, axis, api)
+					if axis < len(ms[0]) {
+						c10Join(r, "Concat", d, ms, lc, axis, api)
+					}
+				}
+			}
+		}
+	}
 	for _, d := range dts {
 		for _, s := range base {
 			rank := len(s)
